@@ -50,6 +50,7 @@ def douglas_case(case):
                 v.append(violation("masked_feature_changes_predictions", {"feature": f, "delta": delta}, **where))
                 break
     n_orders, cells_probed = 0, 0
+    reference_cells = None
     for orders in itertools.product(*[list(itertools.permutations(range(n_cuts))) for _ in used]):
         n_orders += 1
         for (f, cuts), order in zip(model.cut_points_list_, orders):
@@ -93,7 +94,24 @@ def douglas_case(case):
             if np.abs(pr[0] - pr[1]).max() > 1e-6:
                 v.append(violation("prediction_not_constant_inside_a_cell_at_low_temperature", {"cell": cell, "points": pts, "predictions": pr, "orders": orders}, **where))
             seen_cells[cell] = pr[0]
-        # permuting the order in which cut points are stored must not change which cell a value falls in: compare with sorted layout
+        # distinct cells are distinct leaves: with generic leaf scores their predictions differ (a merged pair of cells means that some
+        # leaf is unreachable, i.e. the cell of a value is not given by the number of cut points below it)
+        keys = sorted(seen_cells)
+        for a_i in range(len(keys)):
+            for b_i in range(a_i + 1, len(keys)):
+                if np.abs(seen_cells[keys[a_i]] - seen_cells[keys[b_i]]).max() < 1e-9:
+                    v.append(violation("two_cells_share_one_prediction_at_low_temperature", {"cells": [keys[a_i], keys[b_i]], "orders": orders,
+                                                                                          "prediction": seen_cells[keys[a_i]]}, **where))
+                    break
+        # the cut points are a set: the order in which they are stored must not change the prediction of a cell
+        if reference_cells is None:
+            reference_cells = dict(seen_cells)
+        else:
+            for c_ in keys:
+                if np.abs(seen_cells[c_] - reference_cells[c_]).max() > 1e-6:
+                    v.append(violation("cell_prediction_depends_on_storage_order_of_cut_points", {"cell": c_, "orders": orders,
+                                                                                                "sorted_layout": reference_cells[c_], "this_layout": seen_cells[c_]}, **where))
+                    break
         model.temperature = old_t
     return {"v": _dedup(v), "nt": [case] if len(used) < d or n_cuts > 1 else [], "out": [(d, len(used), n_cuts)],
             "stats": {"evals": 1, "cut_orders": n_orders, "cells_probed": cells_probed},
